@@ -1,7 +1,7 @@
 (* Proofs/C08Proofs.v — invariant of the object-identity machine (Model/Core.v) and its
    consequences: every route to a key returns the one cached object, pickling is the identity,
    ions and isotopes are created once, iteration is sorted and exhaustive, invalid keys raise. *)
-From Coq Require Import ZArith String Ascii List Bool FMapPositive Sorting.Sorted Permutation SetoidList Lia.
+From Coq Require Import ZArith String Ascii List Bool FMapPositive Sorting.Sorted Permutation SetoidList Lia FinFun.
 From PT Require Import Str Py Core.
 Import ListNotations.
 Open Scope string_scope.
@@ -970,4 +970,552 @@ Theorem change_table_key : forall eb s x k T s1 o, Inv eb s -> shape s x k ->
   change_table s x T = (s1, Ok o) -> shape s1 o (retable T k).
 Proof.
   intros eb s x k T s1 o I Sh H. rewrite (change_table_make _ _ _ _ Sh) in H. eapply make_shape; eauto.
+Qed.
+
+
+(* ================================================================== all routes to a key agree *)
+Lemma step_run_inv_ext : forall eb s op ops, Inv eb s ->
+  let s1 := fst (step s op) in Inv eb (run s1 ops) /\ ext s (run s1 ops).
+Proof.
+  intros eb s op ops I s1. pose proof (inv_step eb s op I) as I1. split.
+  - apply inv_run. exact I1.
+  - eapply ext_trans; [eapply ext_step; eauto|]. apply ext_run with (eb := eb). exact I1.
+Qed.
+
+(* however far apart two lookups are in a history, if both succeed and the objects they return
+   have the same key, they returned the same object *)
+Theorem routes_agree : forall eb s0 op1 s1 o1 ops op2 s3 o2 k,
+  Inv eb s0 -> step s0 op1 = (s1, ROk o1) -> step (run s1 ops) op2 = (s3, ROk o2) ->
+  shape s1 o1 k -> shape s3 o2 k -> o1 = o2.
+Proof.
+  intros eb s0 op1 s1 o1 ops op2 s3 o2 k I0 H1 H2 Sh1 Sh2.
+  assert (I1 : Inv eb s1). { pose proof (inv_step eb s0 op1 I0) as X. rewrite H1 in X. exact X. }
+  assert (I2 : Inv eb (run s1 ops)) by (apply inv_run; exact I1).
+  assert (X12 : ext s1 (run s1 ops)) by (apply ext_run with (eb := eb); exact I1).
+  assert (I3 : Inv eb s3). { pose proof (inv_step eb _ op2 I2) as X. rewrite H2 in X. exact X. }
+  assert (X23 : ext (run s1 ops) s3). { pose proof (ext_step eb _ op2 I2) as X. rewrite H2 in X. exact X. }
+  pose proof (ext_trans _ _ _ X12 X23) as X13.
+  eapply same_key_same_object; [exact I3| |exact Sh2].
+  eapply shape_hext; [|exact Sh1]. exact (ext_heap _ _ X13).
+Qed.
+
+Lemma attr_ok_live : forall s T str o, attr_ok s T str o -> exists ob, hget s o = Some ob.
+Proof. intros s T str o [[z [n [io G]]]|[e [z [n [io [a [_ [G _]]]]]]]]; eauto. Qed.
+Lemma modattr_ok_live : forall s str o, modattr_ok s str o -> exists ob, hget s o = Some ob.
+Proof.
+  intros s str o [[z [n [sy [io [G _]]]]]|[[_ A]|[_ A]]]; eauto using attr_ok_live.
+Qed.
+
+(* every successful single-object operation returns a live object with a key *)
+Theorem step_result_live : forall eb s op s1 o, Inv eb s -> step s op = (s1, ROk o) -> exists k, shape s1 o k.
+Proof.
+  intros eb s op s1 o I H.
+  assert (I1 : Inv eb s1). { pose proof (inv_step eb s op I) as X. rewrite H in X. exact X. }
+  assert (L : forall r : state * r1, lift2 r = (s1, ROk o) -> r = (s1, Ok o)).
+  { intros [s' [o'|e]] E; unfold lift2 in E; simpl in E; inversion E; reflexivity. }
+  assert (L1 : forall r : r1, (s, lift r) = (s1, ROk o) -> s1 = s /\ r = Ok o).
+  { intros [o'|e] E; simpl in E; inversion E; auto. }
+  assert (LV : (exists ob, hget s1 o = Some ob) -> exists k, shape s1 o k).
+  { intros [ob G]. eapply live_shape; eauto. }
+  destruct op; simpl in H.
+  - apply L1 in H. destruct H as [-> H]. eexists. eapply table_getitem_shape; eauto.
+  - apply L1 in H. destruct H as [-> H]. apply LV. eapply attr_ok_live. eapply by_symbol_obj; eauto.
+  - apply L1 in H. destruct H as [-> H]. apply LV. apply (by_name_obj _ _ _ _ _ I) in H.
+    destruct H as [[z [sy [io G]]]|[[_ A]|[_ A]]]; eauto using attr_ok_live.
+  - apply L1 in H. destruct H as [-> H]. apply LV.
+    destruct (by_iso_string_obj _ _ _ _ _ I H) as [attr [A [[_ ->]|[_ G]]]]; eauto.
+    apply alookup_In in A. apply (inv_attrs _ _ I) in A. eapply attr_ok_live; eauto.
+  - apply L1 in H. destruct H as [-> H]. apply LV. eapply modattr_ok_live. eapply mod_attr_obj; eauto.
+  - apply L1 in H. destruct H as [-> H]. destruct (elem_getitem_obj _ _ _ _ _ I H) as [G _]. eauto.
+  - apply L in H. destruct (get_ion_obj _ _ _ _ _ _ I H) as [b [G _]]. eauto.
+  - apply L in H. destruct (add_isotope_obj _ _ _ _ _ _ I H) as [e [T [z [io [_ [G _]]]]]]. eauto.
+  - apply L in H. unfold pickle in H. destruct (reduce s x) as [k|]; [|discriminate].
+    exists k. exact (make_shape _ _ _ _ _ I H).
+  - apply L in H. destruct (hget s x) as [ob|] eqn:G.
+    + destruct (live_shape _ _ _ _ I G) as [k Sh]. eexists. exact (change_table_key _ _ _ _ _ _ _ I Sh H).
+    + unfold change_table in H. rewrite G in H. discriminate.
+  - discriminate.
+  - destruct (hget s x) as [[| |]|]; discriminate.
+Qed.
+
+(* ================================================================== a lookup, once made, returns the same object for ever *)
+Lemma table_getitem_ext : forall s s' T z, ext s s' -> table_getitem s' T z = table_getitem s T z.
+Proof. intros. unfold table_getitem. rewrite (ext_elems _ _ H). reflexivity. Qed.
+
+Lemma elem_getitem_ext : forall s s' x a o, ext s s' -> elem_getitem s x a = Ok o -> elem_getitem s' x a = Ok o.
+Proof.
+  intros s s' x a o X H. unfold elem_getitem in *.
+  destruct (hget s x) as [[T z n sy io| |]|] eqn:G; try discriminate.
+  rewrite (ext_heap _ _ X _ _ G).
+  destruct (get2 (isos s) x a) as [o'|] eqn:G2; inversion H; subst.
+  rewrite (ext_isos _ _ X _ _ _ G2). reflexivity.
+Qed.
+
+Lemma ionset_getitem_hit : forall s b q o, get2 (ionsets s) b q = Some o -> ionset_getitem s b q = (s, Ok o).
+Proof. intros. unfold ionset_getitem. rewrite H. reflexivity. Qed.
+
+Lemma ionset_getitem_stable : forall eb s b q s1 o s2, Inv eb s -> ionset_getitem s b q = (s1, Ok o) ->
+  ext s1 s2 -> ionset_getitem s2 b q = (s2, Ok o).
+Proof.
+  intros eb s b q s1 o s2 I H X. destruct (ionset_getitem_obj _ _ _ _ _ _ I H) as [_ G].
+  apply ionset_getitem_hit. apply (ext_ions _ _ X). exact G.
+Qed.
+
+Lemma shape_ext_change_table : forall eb s x k T s1 o s2, Inv eb s -> shape s x k ->
+  make s (retable T k) = (s1, Ok o) -> ext s1 s2 -> make s2 (retable T k) = (s2, Ok o).
+Proof.
+  intros eb s x k T s1 o s2 I _ H X.
+  assert (X01 : ext s s1). { pose proof (ext_make eb s (retable T k) I) as E. rewrite H in E. exact E. }
+  pose proof (ext_trans _ _ _ X01 X) as X02.
+  destruct k as [T' z|T' z a|T' z q|T' z a q]; simpl in *.
+  - inversion H; subst. rewrite (table_getitem_ext _ _ _ _ X). reflexivity.
+  - rewrite (table_getitem_ext _ _ _ _ X02). destruct (table_getitem s T z) as [e|]; [|discriminate].
+    assert (E1 : s1 = s) by congruence. assert (H2 : elem_getitem s e a = Ok o) by congruence. subst s1.
+    rewrite (elem_getitem_ext _ _ _ _ _ X H2). reflexivity.
+  - rewrite (table_getitem_ext _ _ _ _ X02). destruct (table_getitem s T z) as [e|]; [|discriminate].
+    eapply ionset_getitem_stable; eauto.
+  - rewrite (table_getitem_ext _ _ _ _ X02). destruct (table_getitem s T z) as [e|]; [|discriminate].
+    destruct (elem_getitem s e a) as [i|] eqn:Ei; [|discriminate].
+    rewrite (elem_getitem_ext _ _ _ _ _ X02 Ei). eapply ionset_getitem_stable; eauto.
+Qed.
+
+Lemma find_ext_in : forall (A : Type) (f g : A -> bool) l, (forall x, In x l -> f x = g x) -> find f l = find g l.
+Proof.
+  intros A f g l. induction l as [|x l IH]; intro H; simpl; auto.
+  rewrite <- (H x) by (left; reflexivity). destruct (f x); auto. apply IH. intros y Hy. apply H. right. exact Hy.
+Qed.
+
+Lemma by_name_ext : forall eb s s' T str, Inv eb s -> ext s s' -> by_name s' T str = by_name s T str.
+Proof.
+  intros eb s s' T str I X. unfold by_name, iter_elements. rewrite (ext_elems _ _ X), (ext_attrs _ _ X).
+  rewrite (find_ext_in _ (elem_name_is s' str) (elem_name_is s str)); auto.
+  intros o Ho. apply (proj1 (iter_elements_In s T o)) in Ho. destruct Ho as [z Hz].
+  destruct (inv_el_sound _ _ I _ _ _ Hz) as [n [sy [io G]]].
+  unfold elem_name_is. rewrite G, (ext_heap _ _ X _ _ G). reflexivity.
+Qed.
+
+Lemma by_iso_string_ext : forall eb s s' T str o, Inv eb s -> ext s s' ->
+  by_iso_string s T str = Ok o -> by_iso_string s' T str = Ok o.
+Proof.
+  intros eb s s' T str o I X H. unfold by_iso_string in *. destruct (parse_iso_string str) as [a sym].
+  rewrite (ext_attrs _ _ X). destruct (alookup sym (attrs s T)) as [attr|] eqn:A; [|discriminate].
+  destruct (hget s attr) as [[T' z n sy io|e a'|]|] eqn:G; try discriminate; rewrite (ext_heap _ _ X _ _ G); auto.
+  destruct (Z.eqb a 0); auto.
+  destruct (get2 (isos s) attr a) as [o'|] eqn:G2; [|discriminate].
+  rewrite (ext_isos _ _ X _ _ _ G2). exact H.
+Qed.
+
+Lemma root_info_ext : forall s s' x r, ext s s' -> root_info s x = Some r -> root_info s' x = Some r.
+Proof. intros. eapply root_info_hext; eauto. exact (ext_heap _ _ H). Qed.
+
+Theorem route_stable_ext : forall eb s op s1 o s2, Inv eb s -> step s op = (s1, ROk o) ->
+  Inv eb s2 -> ext s1 s2 -> step s2 op = (s2, ROk o).
+Proof.
+  intros eb s op s1 o s2 I H I2 X.
+  assert (X01 : ext s s1). { pose proof (ext_step eb s op I) as E. rewrite H in E. exact E. }
+  pose proof (ext_trans _ _ _ X01 X) as X02.
+  assert (L : forall r : state * r1, lift2 r = (s1, ROk o) -> r = (s1, Ok o)).
+  { intros [s' [o'|e]] E; unfold lift2 in E; simpl in E; inversion E; reflexivity. }
+  assert (L1 : forall r : r1, (s, lift r) = (s1, ROk o) -> s1 = s /\ r = Ok o).
+  { intros [o'|e] E; simpl in E; inversion E; auto. }
+  destruct op; simpl in H; simpl.
+  - apply L1 in H. destruct H as [-> H]. rewrite (table_getitem_ext _ _ _ _ X), H. reflexivity.
+  - apply L1 in H. destruct H as [-> H]. unfold by_symbol in *. rewrite (ext_attrs _ _ X).
+    destruct (alookup s0 (attrs s T)); inversion H; reflexivity.
+  - apply L1 in H. destruct H as [-> H]. rewrite (by_name_ext _ _ _ _ _ I X), H. reflexivity.
+  - apply L1 in H. destruct H as [-> H]. rewrite (by_iso_string_ext _ _ _ _ _ _ I X H). reflexivity.
+  - apply L1 in H. destruct H as [-> H]. unfold mod_attr in *. rewrite (ext_modattrs _ _ X).
+    destruct (alookup s0 (modattrs s)); inversion H; reflexivity.
+  - apply L1 in H. destruct H as [-> H]. rewrite (elem_getitem_ext _ _ _ _ _ X H). reflexivity.
+  - apply L in H. unfold get_ion in *.
+    destruct (hget s x) as [[T z n sy io|e a|b q']|] eqn:G; try discriminate; rewrite (ext_heap _ _ X02 _ _ G);
+      unfold lift2; rewrite (ionset_getitem_stable _ _ _ _ _ _ _ I H X); reflexivity.
+  - apply L in H. destruct (add_isotope_obj _ _ _ _ _ _ I H) as [e [T [z [io [R [_ G]]]]]].
+    unfold add_isotope. rewrite (root_info_ext _ _ _ _ X02 R), (ext_isos _ _ X _ _ _ G). reflexivity.
+  - apply L in H. unfold pickle in H. destruct (reduce s x) as [k|] eqn:R; [|discriminate].
+    pose proof (reduce_shape _ _ _ _ I R) as Sh. rewrite (make_reduce _ _ _ _ I Sh) in H. inversion H; subst.
+    assert (Sh2 : shape s2 o k) by (eapply shape_hext; [exact (ext_heap _ _ X)|exact Sh]).
+    unfold pickle. rewrite (shape_reduce _ _ _ Sh2), (make_reduce _ _ _ _ I2 Sh2). reflexivity.
+  - apply L in H. destruct (hget s x) as [ob|] eqn:G.
+    + destruct (live_shape _ _ _ _ I G) as [k Sh]. rewrite (change_table_make _ _ _ _ Sh) in H.
+      assert (Sh2 : shape s2 x k) by (eapply shape_hext; [exact (ext_heap _ _ X02)|exact Sh]).
+      rewrite (change_table_make _ _ _ _ Sh2). unfold lift2.
+      rewrite (shape_ext_change_table _ _ _ _ _ _ _ _ I Sh H X). reflexivity.
+    + unfold change_table in H. rewrite G in H. discriminate.
+  - discriminate.
+  - destruct (hget s x) as [[| |]|]; discriminate.
+Qed.
+
+(* lookup_stable: the second lookup returns the cached object and changes nothing; so does any
+   later one *)
+Theorem route_stable : forall eb s op s1 o ops, Inv eb s -> step s op = (s1, ROk o) ->
+  step (run s1 ops) op = (run s1 ops, ROk o).
+Proof.
+  intros eb s op s1 o ops I H.
+  assert (I1 : Inv eb s1). { pose proof (inv_step eb s op I) as X. rewrite H in X. exact X. }
+  apply (route_stable_ext eb s op s1 o (run s1 ops) I H).
+  - apply inv_run. exact I1.
+  - apply ext_run with (eb := eb). exact I1.
+Qed.
+
+Theorem lookup_stable : forall eb s op s1 o, Inv eb s -> step s op = (s1, ROk o) -> step s1 op = (s1, ROk o).
+Proof. intros. exact (route_stable eb s op s1 o [] H H0). Qed.
+
+(* ions (and isotopes) are created once: a request allocates at most one object, and every
+   later request for the same charge returns that object without allocating *)
+Theorem ions_created_once : forall eb s x q s1 o ops, Inv eb s -> step s (GetIon x q) = (s1, ROk o) ->
+  (next s1 = next s \/ next s1 = Pos.succ (next s)) /\
+  step (run s1 ops) (GetIon x q) = (run s1 ops, ROk o).
+Proof.
+  intros eb s x q s1 o ops I H. split; [|eapply route_stable; eauto].
+  simpl in H. unfold lift2, get_ion in H.
+  assert (A : forall b, (next (fst (ionset_getitem s b q)) = next s \/ next (fst (ionset_getitem s b q)) = Pos.succ (next s))).
+  { intro b. unfold ionset_getitem. destruct (get2 (ionsets s) b q); auto.
+    destruct (owner_ions s b); auto. destruct (existsb (Z.eqb q) l); auto. }
+  destruct (hget s x) as [[| |b q']|]; inversion H; subst; auto.
+Qed.
+
+Theorem isotopes_created_once : forall eb s x a s1 o ops, Inv eb s -> step s (AddIso x a) = (s1, ROk o) ->
+  (next s1 = next s \/ next s1 = Pos.succ (next s)) /\
+  step (run s1 ops) (AddIso x a) = (run s1 ops, ROk o).
+Proof.
+  intros eb s x a s1 o ops I H. split; [|eapply route_stable; eauto].
+  simpl in H. unfold lift2, add_isotope in H.
+  destruct (root_info s x) as [[[[e T] z] io]|]; [|inversion H; subst; auto].
+  destruct (get2 (isos s) e a); inversion H; subst; auto.
+Qed.
+
+
+(* ================================================================== iteration: sorted, each exactly once *)
+Definition le_fst (p q : Z * oid) : Prop := (fst p <= fst q)%Z.
+Definition lt_fst (p q : Z * oid) : Prop := (fst p < fst q)%Z.
+
+Lemma insert_sorted : forall p l, StronglySorted le_fst l -> StronglySorted le_fst (insert p l).
+Proof.
+  intros p l. induction l as [|h t IH]; intro S; simpl.
+  - constructor; constructor.
+  - inversion S as [|? ? St Ft]; subst. destruct (Z.leb_spec (fst p) (fst h)) as [L|L].
+    + constructor; auto. constructor; auto.
+      eapply Forall_impl; [|exact Ft]. intros a Ha. unfold le_fst in *. lia.
+    + constructor; auto.
+      eapply Permutation_Forall; [apply insert_perm|]. constructor; auto. unfold le_fst. lia.
+Qed.
+Lemma isort_sorted : forall l, StronglySorted le_fst (isort l).
+Proof. induction l as [|p l IH]; simpl; [constructor|apply insert_sorted; exact IH]. Qed.
+
+Lemma sorted_strict : forall l, StronglySorted le_fst l -> NoDup (map fst l) -> StronglySorted lt_fst l.
+Proof.
+  induction l as [|h t IH]; intros S N; [constructor|].
+  inversion S as [|? ? St Ft]; subst. inversion N as [|? ? Nh Nt]; subst.
+  constructor; auto. rewrite Forall_forall in *. intros x Hx. specialize (Ft x Hx).
+  unfold le_fst, lt_fst in *. assert (fst h <> fst x).
+  { intro E. apply Nh. rewrite E. apply in_map. exact Hx. }
+  lia.
+Qed.
+
+Lemma NoDupA_eq_key_fst : forall (l : list (positive * oid)),
+  NoDupA (@PositiveMap.eq_key oid) l -> NoDup (map fst l).
+Proof.
+  induction l as [|h t IH]; intro N; simpl; [constructor|].
+  inversion N as [|? ? Nh Nt]; subst. constructor; auto.
+  intro Hin. apply Nh. apply in_map_iff in Hin. destruct Hin as [x [E Hx]].
+  apply InA_alt. exists x. split; auto. hnf. symmetry. exact E.
+Qed.
+
+Lemma zunkey_inj : Injective zunkey.
+Proof. intros a b E. rewrite <- (zkey_zunkey a), <- (zkey_zunkey b), E. reflexivity. Qed.
+
+Lemma ditems_keys_nodup : forall d, NoDup (map fst (ditems d)).
+Proof.
+  intro d. unfold ditems. rewrite map_map. simpl.
+  rewrite <- (map_map fst zunkey). apply Injective_map_NoDup; [exact zunkey_inj|].
+  apply NoDupA_eq_key_fst. apply PositiveMap.elements_3w.
+Qed.
+
+Lemma sorted_items_strict : forall d, StronglySorted lt_fst (sorted_items d).
+Proof.
+  intro d. unfold sorted_items. apply sorted_strict; [apply isort_sorted|].
+  eapply Permutation_NoDup; [apply Permutation_map; apply isort_perm|]. apply ditems_keys_nodup.
+Qed.
+
+Lemma lt_fst_map : forall l, StronglySorted lt_fst l -> StronglySorted Z.lt (map fst l).
+Proof.
+  induction l as [|h t IH]; intro S; simpl; [constructor|].
+  inversion S as [|? ? St Ft]; subst. constructor; auto.
+  rewrite Forall_forall in *. intros x Hx. apply in_map_iff in Hx. destruct Hx as [y [<- Hy]]. exact (Ft y Hy).
+Qed.
+
+Lemma strict_nodup : forall l : list Z, StronglySorted Z.lt l -> NoDup l.
+Proof.
+  induction l as [|h t IH]; intro S; [constructor|]. inversion S as [|? ? St Ft]; subst.
+  constructor; auto. intro Hin. rewrite Forall_forall in Ft. specialize (Ft h Hin). lia.
+Qed.
+
+Lemma values_nodup : forall l : list (Z * oid), NoDup (map fst l) ->
+  (forall k k' o, In (k, o) l -> In (k', o) l -> k = k') -> NoDup (map snd l).
+Proof.
+  induction l as [|[k o] t IH]; intros N H; simpl; [constructor|].
+  inversion N as [|? ? Nh Nt]; subst. constructor.
+  - intro Hin. apply in_map_iff in Hin. destruct Hin as [[k' o'] [E Hx]]. simpl in E. subst o'.
+    assert (k = k') by (apply (H k k' o); [left; reflexivity|right; exact Hx]). subst k'.
+    apply Nh. simpl. change k with (fst (k, o)). apply in_map. exact Hx.
+  - apply IH; auto. intros k1 k2 o' H1 H2. apply (H k1 k2 o'); right; assumption.
+Qed.
+
+(* list(table): elements by increasing Z, each exactly once, and nothing else *)
+Theorem iter_elements_sorted_once : forall eb s T, Inv eb s ->
+  let items := sorted_items (elems s T) in
+  step s (IterElements T) = (s, RList (map snd items)) /\
+  StronglySorted Z.lt (map fst items) /\ NoDup (map snd items) /\
+  (forall z o, In (z, o) items <-> exists n sy io, hget s o = Some (OElement T z n sy io)).
+Proof.
+  intros eb s T I items.
+  assert (S : StronglySorted Z.lt (map fst items)) by (apply lt_fst_map, sorted_items_strict).
+  assert (M : forall z o, In (z, o) items <-> exists n sy io, hget s o = Some (OElement T z n sy io)).
+  { intros z o. unfold items. rewrite sorted_items_In. split.
+    - apply (inv_el_sound _ _ I).
+    - intros [n [sy [io G]]]. apply (inv_el_complete _ _ I _ _ _ _ _ _ G). }
+  split; [reflexivity|]. split; [exact S|]. split; [|exact M].
+  apply values_nodup; [apply strict_nodup; exact S|].
+  intros k k' o H1 H2. apply M in H1. apply M in H2.
+  destruct H1 as [n [sy [io G1]]]. destruct H2 as [n' [sy' [io' G2]]]. congruence.
+Qed.
+
+(* list(element): isotopes by increasing A, each exactly once, and nothing else *)
+Theorem iter_isotopes_sorted_once : forall eb s x T z n sy io, Inv eb s ->
+  hget s x = Some (OElement T z n sy io) ->
+  let items := sorted_items (dict_of (isos s) x) in
+  step s (IterIsotopes x) = (s, RList (map snd items)) /\
+  StronglySorted Z.lt (map fst items) /\ NoDup (map snd items) /\
+  (forall a o, In (a, o) items <-> hget s o = Some (OIsotope x a)).
+Proof.
+  intros eb s x T z n sy io I G items.
+  assert (S : StronglySorted Z.lt (map fst items)) by (apply lt_fst_map, sorted_items_strict).
+  assert (M : forall a o, In (a, o) items <-> hget s o = Some (OIsotope x a)).
+  { intros a o. unfold items. rewrite sorted_items_In. change (dget (dict_of (isos s) x) a) with (get2 (isos s) x a).
+    split.
+    - apply (inv_iso_sound _ _ I).
+    - intro Go. apply (inv_iso_complete _ _ I _ _ _ Go). }
+  split; [simpl; rewrite G; reflexivity|]. split; [exact S|]. split; [|exact M].
+  apply values_nodup; [apply strict_nodup; exact S|].
+  intros k k' o H1 H2. apply M in H1. apply M in H2. congruence.
+Qed.
+
+(* Isotope and Ion objects are not iterable *)
+Theorem iter_non_element_raises : forall s x ob, hget s x = Some ob ->
+  (forall T z n sy io, ob <> OElement T z n sy io) -> step s (IterIsotopes x) = (s, RErr TypeErr).
+Proof.
+  intros s x ob G N. simpl. rewrite G. destruct ob as [T z n sy io| |]; auto. exfalso. eapply N; eauto.
+Qed.
+
+(* ================================================================== invalid keys raise *)
+Theorem bad_z_raises : forall eb s T z, Inv eb s ->
+  (forall o n sy io, hget s o <> Some (OElement T z n sy io)) -> step s (ByZ T z) = (s, RErr KeyErr).
+Proof.
+  intros eb s T z I N. simpl. unfold table_getitem. destruct (dget (elems s T) z) as [o|] eqn:G; auto.
+  destruct (inv_el_sound _ _ I _ _ _ G) as [n [sy [io H]]]. exfalso. eapply N; eauto.
+Qed.
+
+Theorem z_not_in_base_raises : forall eb s T z, Inv eb s -> ~ In z (map row_z eb) -> step s (ByZ T z) = (s, RErr KeyErr).
+Proof.
+  intros eb s T z I N. eapply bad_z_raises; eauto. intros o n sy io G.
+  destruct (inv_el_complete _ _ I _ _ _ _ _ _ G) as [_ [name [i [u [Hin _]]]]].
+  apply N. apply in_map_iff. exists (z, name, sy, i, u). auto.
+Qed.
+
+Definition row_sym (r : Z * string * string * list Z * list Z) : string := let '(_, _, sy, _, _) := r in sy.
+Definition row_name (r : Z * string * string * list Z * list Z) : string := let '(_, n, _, _, _) := r in lower n.
+
+Lemma alookup_attr_none : forall eb s T str, Inv eb s -> ~ In str (map row_sym eb) -> str <> "D" -> str <> "T" ->
+  alookup str (attrs s T) = None.
+Proof.
+  intros eb s T str I N ND NT. destruct (alookup str (attrs s T)) as [o|] eqn:A; auto.
+  apply alookup_In in A. apply (inv_attrs _ _ I) in A.
+  destruct A as [[z [n [io G]]]|[e [z [n [io [a [[[C _]|[C _]] _]]]]]]]; try congruence.
+  destruct (inv_el_complete _ _ I _ _ _ _ _ _ G) as [_ [name [i [u [Hin _]]]]].
+  exfalso. apply N. apply in_map_iff. exists (z, name, str, i, u). auto.
+Qed.
+
+Theorem unknown_symbol_raises : forall eb s T str, Inv eb s -> ~ In str (map row_sym eb) -> str <> "D" -> str <> "T" ->
+  step s (BySymbol T str) = (s, RErr ValueErr).
+Proof.
+  intros. simpl. unfold by_symbol. rewrite (alookup_attr_none eb); auto.
+Qed.
+
+Definition has_DT (s : state) (T : tabid) : Prop :=
+  alookup "D" (attrs s T) <> None /\ alookup "T" (attrs s T) <> None.
+
+Theorem unknown_name_raises : forall eb s T str, Inv eb s -> has_DT s T -> ~ In str (map row_name eb) ->
+  str <> "deuterium" -> str <> "tritium" -> step s (ByName T str) = (s, RErr ValueErr).
+Proof.
+  intros eb s T str I [HD HT] N ND NT. simpl. unfold by_name.
+  destruct (find (elem_name_is s str) (iter_elements s T)) as [o|] eqn:F.
+  - exfalso. apply find_some in F. destruct F as [Hin Hn]. apply iter_elements_In in Hin. destruct Hin as [z Hz].
+    destruct (inv_el_sound _ _ I _ _ _ Hz) as [n [sy [io G]]].
+    unfold elem_name_is in Hn. rewrite G in Hn. apply String.eqb_eq in Hn. subst n.
+    destruct (inv_el_complete _ _ I _ _ _ _ _ _ G) as [_ [name [i [u [Hin [E _]]]]]].
+    apply N. apply in_map_iff. exists (z, name, sy, i, u). split; auto.
+  - destruct (alookup "D" (attrs s T)); [|congruence].
+    destruct (String.eqb_spec str "deuterium"); [congruence|].
+    destruct (alookup "T" (attrs s T)); [|congruence].
+    destruct (String.eqb_spec str "tritium"); [congruence|]. reflexivity.
+Qed.
+
+Theorem unknown_module_attr_raises : forall eb s str, Inv eb s ->
+  ~ In str (map row_sym eb) -> ~ In str (map row_name eb) ->
+  str <> "D" -> str <> "T" -> str <> "deuterium" -> str <> "tritium" ->
+  step s (ModuleAttr str) = (s, RErr AttrErr).
+Proof.
+  intros eb s str I N1 N2 ND NT Nd Nt. simpl. unfold mod_attr.
+  destruct (alookup str (modattrs s)) as [o|] eqn:A; auto. exfalso.
+  apply alookup_In in A. apply (inv_modattrs _ _ I) in A.
+  destruct A as [[z [n [sy [io [G C]]]]]|[[[C|C] _]|[[C|C] _]]]; try congruence.
+  destruct (inv_el_complete _ _ I _ _ _ _ _ _ G) as [_ [name [i [u [Hin [E _]]]]]].
+  destruct C as [C|C]; subst str.
+  - apply N1. apply in_map_iff. exists (z, name, sy, i, u). auto.
+  - apply N2. apply in_map_iff. exists (z, name, sy, i, u). auto.
+Qed.
+
+Theorem missing_isotope_raises : forall eb s x a T z n sy io, Inv eb s ->
+  hget s x = Some (OElement T z n sy io) -> (forall o, hget s o <> Some (OIsotope x a)) ->
+  step s (GetIso x a) = (s, RErr KeyErr).
+Proof.
+  intros eb s x a T z n sy io I G N. simpl. unfold elem_getitem. rewrite G.
+  destruct (get2 (isos s) x a) as [o|] eqn:G2; auto. exfalso. apply (N o). eapply inv_iso_sound; eauto.
+Qed.
+
+(* element[A] on an Isotope or an Ion is a TypeError *)
+Theorem getitem_non_element_raises : forall s x a ob, hget s x = Some ob ->
+  (forall T z n sy io, ob <> OElement T z n sy io) -> step s (GetIso x a) = (s, RErr TypeErr).
+Proof.
+  intros s x a ob G N. simpl. unfold elem_getitem. rewrite G. destruct ob as [T z n sy io| |]; auto.
+  exfalso. eapply N; eauto.
+Qed.
+
+(* table.isotope never raises anything but ValueError ... *)
+Theorem iso_string_error_kind : forall s T str e, by_iso_string s T str = Er e -> e = ValueErr.
+Proof.
+  intros s T str e H. unfold by_iso_string in H. destruct (parse_iso_string str) as [a sym].
+  destruct (alookup sym (attrs s T)) as [attr|]; [|congruence].
+  destruct (hget s attr) as [[T' z n sy io|e' a'|]|]; try congruence.
+  - destruct (Z.eqb a 0); [discriminate|]. destruct (get2 (isos s) attr a); congruence.
+  - destruct (Z.eqb a 0); congruence.
+Qed.
+
+(* ... and it does raise when the isotope number is not 0 and the element has no such isotope *)
+Theorem missing_iso_string_raises : forall eb s T str e, Inv eb s ->
+  fst (parse_iso_string str) <> 0%Z ->
+  alookup (snd (parse_iso_string str)) (attrs s T) = Some e ->
+  (forall o, hget s o <> Some (OIsotope e (fst (parse_iso_string str)))) ->
+  step s (ByIsoString T str) = (s, RErr ValueErr).
+Proof.
+  intros eb s T str e I Na A N. simpl. unfold by_iso_string. destruct (parse_iso_string str) as [a sym].
+  simpl in *. rewrite A. destruct (hget s e) as [[T' z n sy io|e' a'|]|]; auto.
+  - destruct (Z.eqb_spec a 0); [congruence|].
+    destruct (get2 (isos s) e a) as [o|] eqn:G2; auto. exfalso. apply (N o). eapply inv_iso_sound; eauto.
+  - destruct (Z.eqb_spec a 0); [congruence|]. reflexivity.
+Qed.
+
+Theorem unknown_iso_symbol_raises : forall eb s T str, Inv eb s ->
+  ~ In (snd (parse_iso_string str)) (map row_sym eb) ->
+  snd (parse_iso_string str) <> "D" -> snd (parse_iso_string str) <> "T" ->
+  step s (ByIsoString T str) = (s, RErr ValueErr).
+Proof.
+  intros eb s T str I N ND NT. simpl. unfold by_iso_string. destruct (parse_iso_string str) as [a sym].
+  simpl in *. rewrite (alookup_attr_none eb); auto.
+Qed.
+
+(* D and T take no isotope number: '4-D' *)
+Theorem numbered_DT_raises : forall eb s T str, Inv eb s -> ~ In "D" (map row_sym eb) -> ~ In "T" (map row_sym eb) ->
+  fst (parse_iso_string str) <> 0%Z ->
+  (snd (parse_iso_string str) = "D" \/ snd (parse_iso_string str) = "T") ->
+  step s (ByIsoString T str) = (s, RErr ValueErr).
+Proof.
+  intros eb s T str I ND NT Na C. simpl. unfold by_iso_string. destruct (parse_iso_string str) as [a sym].
+  simpl in *. destruct (alookup sym (attrs s T)) as [o|] eqn:A; auto.
+  apply alookup_In in A. apply (inv_attrs _ _ I) in A.
+  destruct A as [[z [n [io G]]]|[e [z [n [io [a' [_ [G _]]]]]]]].
+  - exfalso. destruct (inv_el_complete _ _ I _ _ _ _ _ _ G) as [_ [name [i [u [Hin _]]]]].
+    assert (In sym (map row_sym eb)) by (apply in_map_iff; exists (z, name, sym, i, u); auto).
+    destruct C; subst sym; auto.
+  - rewrite G. destruct (Z.eqb_spec a 0); [congruence|]. reflexivity.
+Qed.
+
+(* no isotope has a negative (or zero) mass number: kept by every operation that adds none *)
+Definition PosIso (s : state) : Prop := forall o e a, hget s o = Some (OIsotope e a) -> (0 < a)%Z.
+Definition pos_op (o : op) : Prop := match o with AddIso _ a => (0 < a)%Z | _ => True end.
+
+Lemma posiso_ionset_getitem : forall eb s b q, Inv eb s -> PosIso s -> PosIso (fst (ionset_getitem s b q)).
+Proof.
+  intros eb s b q I P. unfold ionset_getitem. destruct (get2 (ionsets s) b q); auto.
+  destruct (owner_ions s b); auto. destruct (existsb (Z.eqb q) l); auto.
+  intros o e a G. change (hget (fst (alloc s (OIon b q))) o = Some (OIsotope e a)) in G.
+  rewrite hget_alloc in G. destruct (Pos.eqb o (next s)); [discriminate|]. eapply P; eauto.
+Qed.
+Lemma posiso_add_isotope : forall eb s x a, Inv eb s -> PosIso s -> (0 < a)%Z -> PosIso (fst (add_isotope s x a)).
+Proof.
+  intros eb s x a I P Ha. unfold add_isotope. destruct (root_info s x) as [[[[e T] z] io]|]; auto.
+  destruct (get2 (isos s) e a); auto.
+  intros o e' a' G. change (hget (fst (alloc s (OIsotope e a))) o = Some (OIsotope e' a')) in G.
+  rewrite hget_alloc in G. destruct (Pos.eqb o (next s)); [inversion G; subst; exact Ha|]. eapply P; eauto.
+Qed.
+Lemma posiso_make : forall eb s k, Inv eb s -> PosIso s -> PosIso (fst (make s k)).
+Proof.
+  intros eb s k I P. destruct k; simpl; auto.
+  - destruct (table_getitem s T z); auto.
+  - destruct (table_getitem s T z); eauto using posiso_ionset_getitem.
+  - destruct (table_getitem s T z); auto. destruct (elem_getitem s o a); eauto using posiso_ionset_getitem.
+Qed.
+Theorem posiso_step : forall eb s o, Inv eb s -> PosIso s -> pos_op o -> PosIso (fst (step s o)).
+Proof.
+  intros eb s o I P Hp. destruct o; simpl; auto.
+  - unfold get_ion. destruct (hget s x) as [[| |]|]; eauto using posiso_ionset_getitem.
+  - eapply posiso_add_isotope; eauto.
+  - unfold pickle. destruct (reduce s x); eauto using posiso_make.
+  - destruct (hget s x) as [ob|] eqn:G.
+    + destruct (live_shape _ _ _ _ I G) as [k Sh]. rewrite (change_table_make _ _ _ _ Sh). eapply posiso_make; eauto.
+    + unfold change_table. rewrite G. exact P.
+  - destruct (hget s x) as [[| |]|]; auto.
+Qed.
+Theorem posiso_run : forall eb ops s, Inv eb s -> PosIso s -> Forall pos_op ops -> PosIso (run s ops).
+Proof.
+  intros eb ops. unfold run. induction ops as [|o r IH]; intros s I P F; simpl; auto.
+  inversion F; subst. apply IH; auto using inv_step. eapply posiso_step; eauto.
+Qed.
+
+(* 'x-H', '-1-H' ... : when the number does not parse the isotope is -1, and no element has it *)
+Theorem negative_iso_string_raises : forall eb s T str, Inv eb s -> PosIso s ->
+  (fst (parse_iso_string str) < 0)%Z -> step s (ByIsoString T str) = (s, RErr ValueErr).
+Proof.
+  intros eb s T str I P Ha. simpl. unfold by_iso_string. destruct (parse_iso_string str) as [a sym].
+  simpl in *. destruct (alookup sym (attrs s T)) as [attr|]; auto.
+  destruct (hget s attr) as [[T' z n sy io|e' a'|]|]; auto.
+  - destruct (Z.eqb_spec a 0); [lia|].
+    destruct (get2 (isos s) attr a) as [o|] eqn:G2; auto.
+    apply (inv_iso_sound _ _ I) in G2. apply P in G2. lia.
+  - destruct (Z.eqb_spec a 0); [lia|]. reflexivity.
+Qed.
+
+(* a charge that is not in the element's ion list raises, and no object is created *)
+Theorem bad_charge_raises : forall eb s x q ob io, Inv eb s -> hget s x = Some ob ->
+  (forall b q', ob <> OIon b q') -> owner_ions s x = Some io -> ~ In q io ->
+  step s (GetIon x q) = (s, RErr ValueErr).
+Proof.
+  intros eb s x q ob io I G N Ob Nq. simpl. unfold get_ion. rewrite G.
+  assert (E : ionset_getitem s x q = (s, Er ValueErr)).
+  { unfold ionset_getitem. destruct (get2 (ionsets s) x q) as [o|] eqn:G2.
+    - exfalso. apply (inv_ion_sound _ _ I) in G2. destruct (inv_ion_complete _ _ I _ _ _ G2) as [_ [io' [Ob' Hin]]].
+      congruence.
+    - rewrite Ob. destruct (existsb (Z.eqb q) io) eqn:Ex; auto. apply existsb_eqb_In in Ex. contradiction. }
+  destruct ob as [| |b q']; try (rewrite E; reflexivity). exfalso. eapply N; eauto.
+Qed.
+
+(* every live Element or Isotope has the ion list of its element *)
+Theorem owner_ions_live : forall eb s x ob, Inv eb s -> hget s x = Some ob -> (forall b q, ob <> OIon b q) ->
+  exists io, owner_ions s x = Some io.
+Proof.
+  intros eb s x ob I G N. unfold owner_ions. rewrite G. destruct ob as [T z n sy io|e a|b q].
+  - eauto.
+  - destruct (inv_iso_complete _ _ I _ _ _ G) as [_ [T [z [n [sy [io Ge]]]]]]. rewrite Ge. eauto.
+  - exfalso. eapply N; eauto.
 Qed.
